@@ -230,16 +230,20 @@ def _dispatch_chain(func: Func, var: str):
         chain, else_body = [], None
         cur = st
         while True:
-            cs = compare_consts(cur.test, lambda e: isinstance(e, ast.Name)
+            test, body, orelse = cur.test, cur.body, cur.orelse
+            while isinstance(test, ast.UnaryOp) and isinstance(test.op,
+                                                               ast.Not):
+                test, body, orelse = test.operand, orelse, body
+            cs = compare_consts(test, lambda e: isinstance(e, ast.Name)
                                 and e.id == var)
             if not cs:
                 break
             for c in cs:
-                chain.append((c, cur.body))
-            if len(cur.orelse) == 1 and isinstance(cur.orelse[0], ast.If):
-                cur = cur.orelse[0]
+                chain.append((c, body))
+            if len(orelse) == 1 and isinstance(orelse[0], ast.If):
+                cur = orelse[0]
                 continue
-            else_body = cur.orelse
+            else_body = orelse
             break
         if len(chain) > len(best[0]):
             best = (chain, else_body)
@@ -560,7 +564,9 @@ def r5_rebuild_facets(ctx):
     ctx.rule('R-C01.5')
     p = ctx.program
     f = p.func('db.sqlite3', 'SQLiteAlterTableSQLResult.to_sql')
-    src_nodes = list(walk_no_nested(f.node, include_lambda=True))
+    from ..util import unit
+    src_nodes = [n for g_ in unit(ctx, f)
+                 for n in walk_no_nested(g_.node, include_lambda=True)]
     # also the nested stub class used for sql_indexes_for_model
     stub_attrs = {}
     for n in ast.walk(f.node):
@@ -569,7 +575,7 @@ def r5_rebuild_facets(ctx):
                 if isinstance(st, ast.Assign) and \
                         isinstance(st.targets[0], ast.Name):
                     stub_attrs[st.targets[0].id] = st.value
-    text = unparse(f.node)
+    text = ' '.join(unparse(g_.node) for g_ in unit(ctx, f))
     # columns / column constraints / field indexes
     if 'local_fields' in text and any(
             isinstance(n, ast.Call) and call_name(n) == 'build_column_schema'
